@@ -710,11 +710,18 @@ func (c *Ctx) boundsJustified(in ssa.Instruction, outer []core.Lit) (string, boo
 				b = bo.X
 			}
 			if cl, ok := c.res(b).(*ssa.Call); ok && strings.HasPrefix(core.CalleeName(cl.Common()), "strings.Index") && core.Path(cl.Common().Args[0]) == core.Path(x) {
-				for _, l := range lits {
-					if l.Kind == "cmp" && l.Op == token.EQL && !l.Pol && c.res(l.X) == ssa.Value(cl) {
-						if k, ok := core.ConstInt(l.Y); ok && k == -1 {
-							return sh, true, "cut at the position strings.Index found in this very string (guard: found)"
-						}
+				for _, l0 := range lits {
+					l := core.PositiveOrder(l0)
+					if l.Kind != "cmp" || c.res(l.X) != ssa.Value(cl) {
+						continue
+					}
+					k, ok := core.ConstInt(l.Y)
+					if !ok {
+						continue
+					}
+					found := (l.Op == token.EQL && !l.Pol && k == -1) || (l.Op == token.GEQ && l.Pol && k == 0) || (l.Op == token.GTR && l.Pol && k == -1)
+					if found {
+						return sh, true, "cut at the position strings.Index found in this very string (guard: found)"
 					}
 				}
 			}
